@@ -2,14 +2,39 @@ import Pycoin.Driver.Core
 import Pycoin.Driver.C02
 import Pycoin.Model.RFC6979
 import Pycoin.Spec.RFC6979
+import Pycoin.Model.KeySign
+import Pycoin.DriverLib.CachedGen
 /-!
 C01 ops: `rfc6979 c d z`, `rfc6979n n d z`, `rfc6979_spec n d z` (the RFC-text spec on the 32-byte hash `z`),
 `sign c d z`, `verify c Q z r s`, `recover c z r s par` (`par` = `~` for `None`), `c01_hmac256 key msg`.
 The model runs with blinding factor 0; the implementation's is random (that the result does not depend on it
-is part of C02).
+is part of C02).  `sign`, `verify`, `recover`, `keysign*`, `keyverify*`, `keyhist` evaluate the model through
+`DriverLib/CachedGen.lean` (`_powers` table of secp256k1 / secp256r1 built once): `Props/C01.lean`, `C01_driver_cached_is_model`,
+proves these are the pure model's functions.
 -/
 namespace Pycoin.Driver.C01
 open Pycoin.Curve Pycoin.Driver Pycoin.Driver.C02 Pycoin.Native
+
+/-- `d:<d>:<comp>` = `Key(secret_exponent=d, is_compressed=comp)`, `pair:<x>,<y>:<comp>` = `Key(public_pair=…)`,
+`sec:<hex>` = `Key.from_sec(…)` -/
+def parseKeyCtor? (c : CurveParams) (s : String) : Option (Except Pycoin.Sec.Err Pycoin.KeyCtor.Key) :=
+  match s.splitOn ":" with
+  | ["d", d, comp] => do
+    pure (Pycoin.KeyCtor.keyFromSecretWith c (Pycoin.DriverLib.CachedGen.mulGF c) (← parseInt? d) (comp = "1"))
+  | ["pair", pt, comp] => do
+    pure (Pycoin.KeyCtor.keyFromPair c (← parsePt? pt) (comp = "1"))
+  | ["sec", h] => do
+    pure (Pycoin.KeyCtor.keyFromSec c (← parseHex? h))
+  | _ => none
+
+def parseStep? (s : String) : Option Pycoin.KeySign.Step :=
+  match s.splitOn ":" with
+  | ["s", h] => do pure (.sign (← parseHex? h))
+  | ["v", h, sig] => do pure (.verify (← parseHex? h) (← parseHex? sig))
+  | ["l", h] => do pure (.verifyLast (← parseHex? h))
+  | ["p"] => some .pubCopy
+  | ["c"] => some .viaSec
+  | _ => none
 
 def handle : Handler := fun op args =>
   match op, args with
@@ -25,13 +50,13 @@ def handle : Handler := fun op args =>
     | some k => some s!"ok {k}"
     | none => some "err OutOfFuel"
   | "sign", [c, d, z] => do
-    let r := Pycoin.RFC6979.signWithRecid (← parseCurve? c) 0 (← parseInt? d) (← parseInt? z)
+    let r := Pycoin.DriverLib.CachedGen.signRecidF (← parseCurve? c) (← parseInt? d) (← parseInt? z)
     some (showRes (fun (t : Int × Int × Int) => s!"{t.1} {t.2.1} {t.2.2}") r)
   | "verify", [c, Q, z, r, s] => do
-    some (showRes showBool (verify (← parseCurve? c) 0 (← parsePt? Q) (← parseInt? z) (← parseInt? r) (← parseInt? s)))
+    some (showRes showBool (Pycoin.DriverLib.CachedGen.verifyF (← parseCurve? c) (← parsePt? Q) (← parseInt? z) (← parseInt? r) (← parseInt? s)))
   | "recover", [c, z, r, s, par] => do
     let par ← if par = "~" then some none else (parseInt? par).map some
-    let res := possiblePublicPairsForSignature (← parseCurve? c) 0 (← parseInt? z) (← parseInt? r) (← parseInt? s) par
+    let res := Pycoin.DriverLib.CachedGen.recoverF (← parseCurve? c) (← parseInt? z) (← parseInt? r) (← parseInt? s) par
     some (showRes (fun l => if l.isEmpty then "~" else ";".intercalate (l.map showPt)) res)
   -- Generator.sign_with_recid / verify / possible_public_pairs_for_signature run over the GLUE MODEL of the OpenSSL class
   -- (`Gen.*` over `Ossl.methods`, libcrypto played by the pure model), compared with the real OpenSSL-configured class
@@ -53,14 +78,48 @@ def handle : Handler := fun op args =>
     let c ← parseCurve? c
     let d ← parseInt? d
     if d < 1 ∨ d ≥ c.n then some "err InvalidSecretExponentError" else
-    some (showRes (fun (t : Int × Int) => s!"{t.1} {t.2}") (Pycoin.RFC6979.sign c 0 d (← parseInt? z)))
+    some (showRes (fun (t : Int × Int) => s!"{t.1} {t.2}") (Pycoin.DriverLib.CachedGen.signF c d (← parseInt? z)))
   | "keyverify", [c, Q, z, r, s] => do
     let c ← parseCurve? c
     let Q ← parsePt? Q
     if Q = none ∨ ¬ containsPoint c Q then some "err InvalidPublicPairError" else
-    match verify c 0 Q (← parseInt? z) (← parseInt? r) (← parseInt? s) with
+    match Pycoin.DriverLib.CachedGen.verifyF c Q (← parseInt? z) (← parseInt? r) (← parseInt? s) with
     | .ok b => some ("ok " ++ showBool b)
     | .error e => if e.isValueError then some "ok 0" else some ("err " ++ e.tag)
+  -- Key.sign / Key.verify on byte strings (Model/KeySign.lean): the DER blob itself, any bytes as signature, any bytes as hash
+  | "keysign_der", [c, ctor, h] => do
+    let c ← parseCurve? c
+    match ← parseKeyCtor? c ctor with
+    | .error e => some ("err " ++ e.tag)
+    | .ok k =>
+      match Pycoin.KeySign.keySignWith (Pycoin.DriverLib.CachedGen.signF c) k (← parseHex? h) with
+      | .ok blob => some ("ok " ++ hx blob)
+      | .error e => some ("err " ++ e.tag)
+  | "keyverify_der", [c, ctor, h, sig] => do
+    let c ← parseCurve? c
+    match ← parseKeyCtor? c ctor with
+    | .error e => some ("err " ++ e.tag)
+    | .ok k =>
+      match Pycoin.KeySign.keyVerifyWith (Pycoin.DriverLib.CachedGen.verifyF c) k (← parseHex? h) (← parseHex? sig) with
+      | .ok b => some ("ok " ++ showBool b)
+      | .error e => some ("err " ++ e.tag)
+  | "keyhist", [c, ctor, steps] => do
+    let c ← parseCurve? c
+    let steps ← (steps.splitOn ",").mapM parseStep?
+    match ← parseKeyCtor? c ctor with
+    | .error e => some ("err " ++ e.tag)
+    | .ok k => some ("ok " ++ ";".intercalate (Pycoin.KeySign.runWith c (Pycoin.DriverLib.CachedGen.signF c) (Pycoin.DriverLib.CachedGen.verifyF c) ⟨k, []⟩ steps))
+  -- all affine curve points under which (z, r, s) verifies (enumeration of the toy curve), and what recovery returns when
+  -- called with the abscissa r and with r + n: the first set is the union of the other two (C01_verifying_keys_*)
+  | "toy_keys", [c, z, r, s] => do
+    let c ← parseCurve? c
+    let z ← parseInt? z; let r ← parseInt? r; let s ← parseInt? s
+    let ver := (toyPoints c).filter fun Q => Q.isSome && (match verify c 0 Q z r s with | .ok true => true | _ => false)
+    let rec1 := possiblePublicPairsForSignature c 0 z r s none
+    let rec2 := possiblePublicPairsForSignature c 0 z (r + c.n) s none
+    let sh := fun (l : List Pt) => if l.isEmpty then "~" else ";".intercalate (l.map showPt)
+    let she := fun (e : Except Err (List Pt)) => match e with | .ok l => sh l | .error er => "!" ++ er.tag
+    some s!"ok {sh ver}|{she rec1}|{she rec2}"
   | "toy_sign", [c, d, zmax] => do
     let c ← parseCurve? c
     let d ← parseInt? d
